@@ -514,13 +514,17 @@ func (c1 intConst) binaryOp(op ast.OperatorType, c2 constant) (constant, error) 
 		sc := uint(c2.uint64())
 		i := new(big.Int).Set(c1.i)
 		if op == ast.OperatorLeftShift {
-			c := intConst{i: i.Lsh(i, sc)}
-			if c.overflow() {
-				return intConst{}, errors.New("constant shift overflow")
-			}
-			return c, nil
+			i.Lsh(i, sc)
+		} else {
+			i.Rsh(i, sc)
 		}
-		return intConst{i: i.Rsh(i, sc)}, nil
+		// Also a right shift can overflow: the left operand can be a
+		// floating-point constant with an integer value above 512 bits.
+		c := intConst{i: i}
+		if c.overflow() {
+			return intConst{}, errors.New("constant shift overflow")
+		}
+		return c, nil
 	}
 	n1 := c1
 	n2, ok := c2.(intConst)
